@@ -327,4 +327,13 @@ def rule_next_dir(ctx):
     ctx.borrow(rule_eof, {"C19.EOF": "C09.NEXT"}, only=lambda fn: "Client.list" in fn)
 
 
-RULES = [rule_dest, rule_rec, rule_list, rule_rm, rule_mkdir, rule_copy_client, rule_next_dir]
+def rule_borrowed_r4(ctx):
+    from .c08 import rule_carry
+    from .c01 import rule_eof
+    ctx.rule("C09.NAMES", "the tree operations walk the names the listing parsers return: a parser that cuts or rebuilds a name sends list/download/remove to paths that do not exist (shared with C08.CARRY)")
+    ctx.borrow(rule_carry, {"C08.CARRY": "C09.NAMES"})
+    ctx.rule("C09.BLOCKS", "file contents are copied block by block until an EMPTY read: a block shorter than requested is not the end of the file (shared with C01.EOF)")
+    ctx.borrow(rule_eof, {"C01.EOF": "C09.BLOCKS"})
+
+
+RULES = [rule_dest, rule_rec, rule_list, rule_rm, rule_mkdir, rule_copy_client, rule_next_dir, rule_borrowed_r4]
